@@ -427,7 +427,9 @@ Proof. exact ex_ecdsa_variant_ok. Qed.
 (* Every key the registry's parser yields from a serialisation s0 (RAW => no id)
    serialises (success included), to the same URL and material type, the same
    id and prefix (LEGACY may come back as CRUNCHY; streaming keys come back as
-   RAW/0), and the result parses to the same key again. *)
+   RAW/0), and the result parses to the same key again.  The prefix of s0 is one
+   keyset.Validate accepts (TINK, LEGACY, RAW, CRUNCHY, WITH_ID_REQUIREMENT):
+   derived from the tables, not assumed. *)
 Theorem C12_registry_key_reserializes :
   forall (schemas : bytes -> option schema),
     (forall url sch, schemas url = Some sch -> wf_schema sch = true) ->
@@ -436,15 +438,15 @@ Theorem C12_registry_key_reserializes :
       dpar (registry schemas) s0 = Some k ->
       exists s', dser k = Some s' /\
         ks_url s' = ks_url s0 /\ ks_mat s' = ks_mat s0 /\
-        ((prefix_rel (ks_prefix s0) (ks_prefix s') /\ ks_id s' = ks_id s0) \/
+        ((prefix_rel (ks_prefix s0) (ks_prefix s') /\ ks_id s' = ks_id s0 /\ known_prefix (ks_prefix s0) = true) \/
          (ks_prefix s' = prefix_raw /\ ks_id s' = 0 /\ exists T g, k = DK T g /\ kt_prefix T = PIgnored)) /\
         (N.of_nat (length (ks_value s')) < 2 ^ 64 -> dpar (registry schemas) s' = Some k).
 Proof. exact dkey_reserialize. Qed.
 Print Assumptions C12_registry_key_reserializes.
 
 (* wf_dhandle (ids distinct and < 2^32, one primary and it is enabled, no unknown
-   status, every key in the image of the registry's parser under a known prefix
-   with the entry's id as id requirement, serialisations < 2^64 bytes) implies
+   status, every key in the image of the registry's parser with the entry's id
+   as id requirement, serialisations < 2^64 bytes; NO premise on the prefix) implies
    the abstract wf_handle whose key_ok field was an assumption before. *)
 Theorem C12_registry_handle_keys_roundtrip :
   forall (schemas : bytes -> option schema),
@@ -545,23 +547,45 @@ Theorem C12_public_url_pairs_pass_table_check :
 Proof. split; [exact pub_pairs_ok | reflexivity]. Qed.
 Print Assumptions C12_public_url_pairs_pass_table_check.
 
-(* The premise "known prefix" of wf_dhandle excludes something real: a handle
-   holding a registered ML-DSA key of the variant that is written with
-   OutputPrefixType WITH_ID_REQUIREMENT (5) is legal and is written without
-   error, but the reader refuses the bytes (keyset.Validate only knows TINK,
-   LEGACY, RAW, CRUNCHY).  Confirmed on /repo: harness/cmd/c12probe2. *)
-Theorem C12_with_id_requirement_prefix_keyset_roundtrip_refuted :
-  exists (schemas : bytes -> option schema) (s0 : kser) (k : dkey) (b : bytes),
-    (forall url sch, schemas url = Some sch -> wf_schema sch = true) /\
-    ks_prefix s0 = 5 /\ ks_id s0 = 9 /\
-    dpar (registry schemas) s0 = Some k /\ dser k = Some s0 /\
-    (exists T g, k = DK T g) /\
-    let es := [mkEntry k true 9 Enabled] in
-    new_from_entries dkey es = Some es /\
-    write_cleartext dkey dser es = Some b /\
-    read_cleartext dkey (dpar (registry schemas)) b = None.
-Proof. exact with_id_requirement_keyset_unreadable. Qed.
-Print Assumptions C12_with_id_requirement_prefix_keyset_roundtrip_refuted.
+(* Every prefix a parser of a registered type accepts is accepted by keyset.Validate
+   (by computation over the tables); this is what removes the prefix premise. *)
+Theorem C12_parser_prefixes_pass_validate :
+  forallb pm_known prefix_maps = true.
+Proof. exact prefix_maps_known. Qed.
+Print Assumptions C12_parser_prefixes_pass_validate.
+
+(* OutputPrefixType WITH_ID_REQUIREMENT (5): a handle holding a registered ML-DSA
+   private key of the variant NoPrefixWithPrehashID (prefix 5, id requirement 9)
+   is a registry handle; cleartext write then read, encrypted write then read and
+   Public() + write then read give the same handles back.  This was a finding
+   (Write succeeded, every reader refused the bytes), fixed by /repo 4b80d2c:
+   keyset.Validate now accepts WITH_ID_REQUIREMENT. *)
+Theorem C12_with_id_requirement_prefix_keyset_roundtrips :
+  (exists T g, exC_k = DK T g) /\
+  wf_dhandle (registry ex_schemas) exC_es /\ wf_dhandle (registry ex_schemas) exC_pub /\
+  ks_prefix exC_s = 5 /\ ks_id exC_s = 9 /\
+  dpar (registry ex_schemas) exC_s = Some exC_k /\ dser exC_k = Some exC_s /\
+  write_cleartext dkey dser exC_es = Some exC_clear /\
+  read_cleartext dkey (dpar (registry ex_schemas)) exC_clear = Some exC_es /\
+  write_encrypted dkey dser toy_enc exC_es [1; 2; 3] = Some exC_enc /\
+  read_encrypted dkey (dpar (registry ex_schemas)) toy_dec exC_enc [1; 2; 3] = Some exC_es /\
+  public_handle dkey (dpub (registry ex_schemas) ex_pub_url) exC_es = Some exC_pub /\
+  map (fun e => option_map (fun s => (ks_url s, ks_prefix s, ks_id s)) (dser (e_key e))) exC_pub
+    = [Some (mldsa_pub_url, 5, 9)] /\
+  write_cleartext dkey dser exC_pub = Some exC_pub_clear /\
+  read_cleartext dkey (dpar (registry ex_schemas)) exC_pub_clear = Some exC_pub.
+Proof. exact with_id_requirement_keyset_roundtrips. Qed.
+Print Assumptions C12_with_id_requirement_prefix_keyset_roundtrips.
+
+(* ... while prefix 5 on a registered type whose parser does not know it (AES-GCM)
+   or on an unregistered URL (the fallback key knows TINK/LEGACY/RAW/CRUNCHY only)
+   passes Validate and is refused when the key is parsed; the same unregistered
+   key under CRUNCHY is accepted *)
+Example C12_with_id_requirement_prefix_elsewhere_rejected :
+  validate exE_ks1 = true /\ handle_from_proto dkey (dpar (registry ex_schemas)) exE_ks1 = None /\
+  validate exE_ks2 = true /\ handle_from_proto dkey (dpar (registry ex_schemas)) exE_ks2 = None /\
+  handle_from_proto dkey (dpar (registry ex_schemas)) (mkPkeyset 7 [mkPkey (Some (mkKeyData [116; 50] [9] 1)) 1 7 4]) <> None.
+Proof. exact exE_facts. Qed.
 
 (* non-vacuity at the registry: handle A = an AES-GCM key (registered type, read
    from a LEGACY serialisation, id 7, written back as CRUNCHY) and a key of an
